@@ -138,6 +138,7 @@ def run(prog: Program, res: Result, tier: str) -> None:
                 f"{inst}: switch {zm}, swap is a non-symmetry: {ok}",
                 instance=inst)
     check_idmap(prog, res, fi)
+    check_idx_id_mix(prog, res, fi)
     check_falsy_and_state(prog, res, fi)
     res.exhaustive = True
     res.trusted += ["literal permutation tables (checked by C04)",
@@ -303,6 +304,29 @@ def check_idmap(prog: Program, res: Result, fi) -> None:
                 "atom map number over rdmol.GetAtoms())", instance=inst)
 
 
+def check_idx_id_mix(prog: Program, res: Result, fi) -> None:
+    from .. import idkinds
+    res.rule("R-IDX-ID-MIX", "inside the importer no ==, !=, in, not in "
+             "compares an RDKit atom index with a graph atom identifier (or a "
+             "collection of them), and id_atom_map is looked up with indices "
+             "only: the two integer spaces coincide for the index import and "
+             "differ for the import by atom-map number")
+    n = 0
+    for fn in (fi, prog.fn("rdmol2graph:mol_graph_from_rdmol")):
+        for node, txt, kl, kr, ok in idkinds.check(fn, {"id_atom_map"}):
+            n += 1
+            inst = f"{fn.short}: `{txt}` ({kl} vs {kr})"
+            if ok:
+                res.ok("R-IDX-ID-MIX", inst, fn.loc(node))
+            else:
+                res.bad("R-IDX-ID-MIX", f"{fn.short}: {txt}", fn.loc(node),
+                        f"{fn.short}: `{txt}` relates an {kl} to an {kr}: "
+                        "true by accident for the index import, wrong when "
+                        "identifiers are atom-map numbers", instance=inst)
+    res.need("R-IDX-ID-MIX", n, 28, "comparisons / map lookups with "
+             "inferable kinds in the importer")
+
+
 def check_falsy_and_state(prog: Program, res: Result, fi) -> None:
     res.rule("R-FALSY-ID", "atom identifiers (0 is a legal identifier and "
              "RDKit index) are never tested by truthiness: presence tests on "
@@ -358,6 +382,13 @@ def check_falsy_and_state(prog: Program, res: Result, fi) -> None:
                         "atom 0 counts as absent")
             else:
                 res.ok("R-FALSY-ID", inst, fi.loc(node))
+    from .. import idkinds
+    for x, ttxt, k in idkinds.truthiness_tests(fi, {"id_atom_map"}):
+        n += 1
+        res.bad("R-FALSY-ID", f"smg_from_rdmol: truth value of `{norm(x)}`",
+                fi.loc(x), f"smg_from_rdmol: `{norm(x)}` ({k}) is used as a "
+                f"truth value in `{ttxt}`: RDKit atom 0 / identifier 0 counts "
+                "as absent")
     res.need("R-FALSY-ID", n, 3, "any()/all() tests in the importer")
     ci = prog.cls("RDMol2StereoMolGraph")
     for name, m in ci.methods.items():
